@@ -325,7 +325,8 @@ def t3_inject_harnesses(dest, harness_dir, copy=True):
         info = parse_harness_file(hpath)
         target = info['include_into']
         rec = {'transform': 'T3', 'harness_file': hpath, 'file': target, 'sites': 0,
-               'harnesses': [h['harness'] for h in info['harnesses']]}
+               'harnesses': [h['harness'] for h in info['harnesses']],
+               'obligations': {h['harness']: h['obligations'] for h in info['harnesses']}}
         if not target:
             rec['error'] = 'no `//@ include-into <path>` directive'
             recs.append(rec)
@@ -366,7 +367,7 @@ def _write(path, text):
 def _copy_tree(repo, dest):
     os.makedirs(dest, exist_ok=True)
     if shutil.which('rsync'):
-        cmd = ['rsync', '-a', '--delete', '--exclude', '/target/', '--exclude', '/.git/',
+        cmd = ['rsync', '-a', '-c', '--delete', '--exclude', '/target/', '--exclude', '/.git/',
                repo.rstrip('/') + '/', dest.rstrip('/') + '/']
         r = subprocess.run(cmd, stdout=subprocess.PIPE, stderr=subprocess.STDOUT, text=True)
         if r.returncode != 0:
@@ -418,9 +419,13 @@ def stage(dest, repo=DEFAULT_REPO, harness_dir=DEFAULT_HARNESS_DIR, prelude=DEFA
                        'note': '[net] offline = true; removed ' + (', '.join(removed) or 'nothing')})
 
     harnesses = {}
+    obligations = {}
     for r in t3:
+        if r.get('error'):
+            continue
         for h in r.get('harnesses', []):
             harnesses[h] = r['harness_file']
+            obligations[h] = r.get('obligations', {}).get(h, [])
 
     return {
         'dest': dest,
@@ -432,6 +437,7 @@ def stage(dest, repo=DEFAULT_REPO, harness_dir=DEFAULT_HARNESS_DIR, prelude=DEFA
         'harness_files': [r['harness_file'] for r in t3 if not r.get('error')],
         'harness_errors': [r for r in t3 if r.get('error')],
         'harnesses': harnesses,
+        'obligations': obligations,
         'cargo_lock_present': os.path.isfile(os.path.join(dest, 'Cargo.lock')),
         'features': ['instructions', 'abi_x86_interrupt'],
         'transforms': transforms,
